@@ -2,7 +2,8 @@
     Property theorems only: statements in full, each closed by [exact]/[apply] of a lemma proved elsewhere.
     [gen_*] are the definitions regenerated from simulate.py / base.py on every run (gen/GenC18.v). *)
 From Coq Require Import ZArith QArith Qround Qabs Bool List String Sorted Permutation.
-From Leaspy Require Import Base.QAux Api.Simulate Api.SimulateProofs Api.SimulateTie Api.SimulateGen Api.SimulateGenProofs Api.SimulateGenTie.
+From Leaspy Require Import Base.QAux Api.Simulate Api.SimulateProofs Api.SimulateTie Api.SimulateGen Api.SimulateGenProofs Api.SimulateGenTie
+  Api.SimulateGenWf Api.SimulateGenWfProofs Api.SimulateGenWfTie.
 From LeaspyGen Require Import GenC18.
 Import ListNotations.
 
@@ -421,3 +422,57 @@ Theorem C18_tie_generation :
                    "self._generate_visit_ages"; "self._generate_dataset"; "Data.from_dataframe"]%string.
 Proof. split; [exact tie_gen_prog | exact tie_run_order]. Qed.
 Print Assumptions C18_tie_generation.
+
+(* ---------------------------------------------------------------- the generation never takes a crash branch *)
+
+(** The program regenerated from the source is statically well-formed ([prog_wf]: every column expression names columns assigned
+    before it and uses sized draws only; the loop step uses [time] and scalar draws only; the loop's two columns are assigned) —
+    decided by computation on [gen_prog_src] itself on every run. *)
+Theorem C18_tie_generation_wf :
+  prog_wf gen_prog_src = true /\ ip_draws_only gen_prog_src = true /\ List.length (gp_ip gen_prog_src) = 2%nat.
+Proof. exact tie_prog_wf. Qed.
+Print Assumptions C18_tie_generation_wf.
+
+(** Every design ACCEPTED by the constructor, every arithmetic, every number of sources, every tape: the generation of the current
+    source returns [GCrash] exactly on the two listed families — a [bool] count (random design, F10d `run:bool-patient-number`)
+    and a visit table with a non-string ID (F10g/h) — and otherwise the generated table, [GExhausted] (the tape ends before the
+    visit loop does) or [GMismatch] (the tape's next element is not of the kind / size asked for).  No missing column, no
+    length mismatch, no missing precision, no negative count.  [SimulateGenWfTie.ex_never_crashes]: every outcome occurs. *)
+Theorem C18_generation_never_crashes :
+  forall (T : Type) (add : T -> T -> T) (absT : T -> T) (ltb : T -> T -> bool) (key : Z -> T -> Z) (ofQ : Q -> T)
+         (nsrc : nat) (d : design) (ps : dict) (vt : vtype) (tp : tape T),
+  construct d = Ok ps -> d_visit_type d = Some vt ->
+  (gen_generate T add absT ltb key ofQ nsrc vt ps tp = GCrash <->
+     match vt with
+     | VtRandom => exists b, lookup "patient_number" ps = Some (VBool b)
+     | VtDataframe => exists f, lookup "df_visits" ps = Some (VFrame f) /\ all_string_ids f = false
+     | VtOther => False
+     end) /\
+  (gen_generate T add absT ltb key ofQ nsrc vt ps tp = GCrash \/ gen_generate T add absT ltb key ofQ nsrc vt ps tp = GExhausted \/
+   gen_generate T add absT ltb key ofQ nsrc vt ps tp = GMismatch \/ exists o, gen_generate T add absT ltb key ofQ nsrc vt ps tp = GOk o).
+Proof. exact gen_never_crashes. Qed.
+Print Assumptions C18_generation_never_crashes.
+
+(** ... in particular with a genuine integer count (the side condition of [C18_generation_random] is never a crash) *)
+Theorem C18_generation_random_no_crash :
+  forall (T : Type) (add : T -> T -> T) (absT : T -> T) (ltb : T -> T -> bool) (key : Z -> T -> Z) (ofQ : Q -> T)
+         (nsrc : nat) (d : design) (ps : dict) (n : Z) (tp : tape T),
+  construct d = Ok ps -> d_visit_type d = Some VtRandom -> lookup "patient_number" ps = Some (VInt n) ->
+  gen_generate T add absT ltb key ofQ nsrc VtRandom ps tp <> GCrash.
+Proof. exact gen_random_no_crash. Qed.
+Print Assumptions C18_generation_random_no_crash.
+
+(** Table design with string IDs, tape = one vector of [n_groups] values per parameter column ((2 + sources) vectors) followed
+    by anything: the generation COMPLETES ([GOk], neither [GExhausted] nor [GMismatch]), leaves the rest of the tape untouched,
+    returns the table's individuals and has consumed (2 + sources)·n_groups draws. *)
+Theorem C18_generation_table_total :
+  forall (T : Type) (add : T -> T -> T) (absT : T -> T) (ltb : T -> T -> bool) (key : Z -> T -> Z) (ofQ : Q -> T)
+         (nsrc : nat) (d : design) (ps : dict) (f : frame) (vs : list (list T)) (rest : tape T),
+  construct d = Ok ps -> d_visit_type d = Some VtDataframe ->
+  lookup "df_visits" ps = Some (VFrame f) -> all_string_ids f = true ->
+  List.length vs = (2 + nsrc)%nat -> Forall (fun v : list T => List.length v = n_groups f) vs ->
+  exists o, gen_generate T add absT ltb key ofQ nsrc VtDataframe ps (vec_tape vs rest) = GOk o /\ go_rest o = rest /\
+            map fst (go_requested o) = table_ids f /\
+            consumed T (vec_tape vs rest) o = ((2 + nsrc) * n_groups f)%nat.
+Proof. exact gen_table_total. Qed.
+Print Assumptions C18_generation_table_total.
